@@ -367,6 +367,8 @@ def origins(body, local, max_steps=4000, identity=IDENTITY_CALLS, through_try=Tr
     identity-like callees (continuing into their first argument, and all arguments for `join`)."""
     seen = set()
     out = []
+    if local is None:
+        return out
     work = [local]
     steps = 0
     tries = {e["dst"]: e for e in try_edges(body)} if through_try else {}
